@@ -43,9 +43,10 @@ Record ctx := mkctx {
 }.
 
 (* ---- generators as streams ---- *)
-(* Mut o k: the evaluator changed the loaded document -- `del <dict with identity
-   o>[k]` in collector subtraction, or a node-creating branch reported by the
-   [creator] parameter; the model stops there. *)
+(* Mut o k: the evaluator changed the loaded document -- a node-creating branch
+   reported by the [creator] parameter; the model stops there.  (Until the fix of
+   F16 the `del <dict with identity o>[k]` of collector subtraction ended here
+   too; no read path does any more: Proofs/EvalPure.v.) *)
 Inductive stop := Done | Err (e : exn) | Fuel | Mut (o : N) (k : pyval).
 Definition gen (A : Type) : Type := (list A * stop)%type.
 
@@ -553,7 +554,17 @@ Definition match_all_filtered (sg_next : rval -> ctx -> gen rval) (v : rval) (c 
           | Some _ => gone (ncoords (RNode (snd kv)) (Some v) (Some k) ntp nanc)
           | None => gnil
           end))
-  | RNode (NLeaf _ _) | RNode (NSet _ _) | RCoords _ _ _ _ _ => gnil
+  | RNode (NSet _ els) =>       (* since the fix of F29: mirrors the set branch of the unfiltered handler *)
+      gfor els (fun e =>
+        let k := key_val e in
+        let ntp := tp_add tp (esc_sec (py_str k) tp) in
+        let nanc := (anc ++ [(v, k)])%list in
+        gfirst (sg_next (RNode e) (mkctx (Some v) (Some k) true ntp nanc)) (fun f =>
+          match f with
+          | Some _ => gone (ncoords (RNode e) (Some v) (Some k) ntp nanc)
+          | None => gnil
+          end))
+  | RNode (NLeaf _ _) | RCoords _ _ _ _ _ => gnil
   | _ =>
       gfor (enumerate (elems v)) (fun ie =>
         let '(i, e) := ie in
@@ -769,7 +780,8 @@ Definition ref_in_rem (rf : option pyval) (r : rem) : outcome bool :=
   | RemVal v => Ok (existsb (fun e => match e with RNode (NLeaf _ x) => py_eq x k | _ => false end) (elems v))
   end.
 
-(* the loop over rem_data for an lhs wrapping a dict: (append_node, keys to delete) *)
+(* the loop over rem_data for an lhs wrapping a dict: (append_node, rem_keys);
+   a key is recorded once (`key not in rem_keys`) *)
 Fixpoint sub_dict_scan (lhs_kvs : list (node * node)) (rf : option pyval) (rems : list rem)
          (append_node : bool) (keys : list pyval) : outcome (bool * list pyval) :=
   match rems with
@@ -781,7 +793,8 @@ Fixpoint sub_dict_scan (lhs_kvs : list (node * node)) (rf : option pyval) (rems 
       | RemVal (RNode (NMap _ _)) => sub_dict_scan lhs_kvs rf rest append_node keys   (* isinstance(rhs, OrderedDict) *)
       | RemPair k x =>
           let keys := match assoc_key k lhs_kvs with
-                      | Some val => if veq (RNode val) x then (keys ++ [k])%list else keys
+                      | Some val => if veq (RNode val) x && negb (existsb (py_eq k) keys)
+                                    then (keys ++ [k])%list else keys
                       | None => keys
                       end in
           sub_dict_scan lhs_kvs rf rest append_node keys
@@ -789,31 +802,55 @@ Fixpoint sub_dict_scan (lhs_kvs : list (node * node)) (rf : option pyval) (rems 
       end
   end.
 
-(* the loop over lhs_ncs: (updated_coords, rem_dels) *)
-Fixpoint sub_scan (rems : list rem) (lhs : list rval) (updated : list rval) (dels : list (nat * pyval))
-  : outcome (list rval * list (nat * pyval)) :=
+(* copy(unwrapped_lhs): a NEW object.  Its identity is no loaded object's: the
+   harness numbers the objects of the document from 0 upwards (docenc.Encoder),
+   the shallow copy of object o is given the number copy_base + o.  Anchor, tag
+   and the children (the document's own objects) are kept. *)
+Definition copy_base : N := 4294967296%N.
+Definition copy_info (i : info) : info :=
+  mkinfo (copy_base + oid i)%N (anchor i) (has_anchor_attr i) (tag i).
+Definition is_copy (n : node) : bool := (copy_base <=? node_oid n)%N.
+
+(* for key in rem_keys: del reduced_lhs[key] *)
+Definition del_keys (keys : list pyval) (kvs : list (node * node)) : list (node * node) :=
+  filter (fun kv => negb (existsb (py_eq (key_val (fst kv))) keys)) kvs.
+
+(* NodeCoords(reduced_lhs, deepest_lhs.parent, .parentref, .path, .ancestry, .path_segment) *)
+Definition reduced_coords (i : info) (kvs : list (node * node)) (keys : list pyval) (dl : rval) : rval :=
+  match dl with
+  | RCoords _ par rf path anc => RCoords (RNode (NMap (copy_info i) (del_keys keys kvs))) par rf path anc
+  | _ => dl
+  end.
+
+(* the loop over lhs_ncs: updated_coords.  Since the fix of F16 the pairs are
+   removed from a shallow copy of the hash where it is appended; the document
+   is not written to. *)
+Fixpoint sub_scan (rems : list rem) (lhs : list rval) (updated : list rval) : outcome (list rval) :=
   match lhs with
-  | [] => Ok (updated, dels)
+  | [] => Ok updated
   | l :: rest =>
       match l with
       | RCoords _ _ rf _ _ =>
           let u := unw l in
-          let rem_idx := List.length updated in
           match u with
-          | RNode (NMap _ kvs) =>
-              if existsb (rem_eq u) rems then sub_scan rems rest updated dels
+          | RNode (NMap i kvs) =>
+              if existsb (rem_eq u) rems then sub_scan rems rest updated
               else
                 do r <- sub_dict_scan kvs rf rems true [];
                 let '(append_node, keys) := r in
-                let dels := (dels ++ map (fun k => (rem_idx, k)) keys)%list in
-                if append_node then sub_scan rems rest (updated ++ [deepest l])%list dels
-                else sub_scan rems rest updated dels
+                if append_node then
+                  sub_scan rems rest
+                    (updated ++ [match keys with
+                                 | [] => deepest l
+                                 | _ => reduced_coords i kvs keys (deepest l)
+                                 end])%list
+                else sub_scan rems rest updated
           | _ =>
               if existsb (rem_eq u) rems
                  || (is_pylist u && Nat.eqb (List.length (elems u)) (List.length rems)
                      && forallb (fun xr => rem_eq (fst xr) (snd xr)) (combine (elems u) rems))
-              then sub_scan rems rest updated dels
-              else sub_scan rems rest (updated ++ [deepest l])%list dels
+              then sub_scan rems rest updated
+              else sub_scan rems rest (updated ++ [deepest l])%list
           end
       | _ => Raise (PyCrash AttributeError)
       end
@@ -821,23 +858,10 @@ Fixpoint sub_scan (rems : list rem) (lhs : list rval) (updated : list rval) (del
 
 (* _collector_subtraction after rem_data is gathered *)
 Definition subtraction (rems : list rem) (lhs : list rval) : gen rval :=
-  match sub_scan rems lhs [] [] with
+  match sub_scan rems lhs [] with
   | Raise e => gerr e
   | OutOfFuel => gfuel
-  | Ok (updated, []) => (updated, Done)
-  | Ok (updated, (idx, key) :: _) =>
-      match nth_error updated idx with
-      | None => gerr (PyCrash IndexError)
-      | Some target =>
-          match deepest target with
-          | RCoords (RNode (NMap i kvs)) _ _ _ _ =>
-              match assoc_key key kvs with
-              | Some _ => ([], Mut (oid i) key)
-              | None => gerr (PyCrash KeyError)
-              end
-          | _ => gerr (PyCrash TypeError)
-          end
-      end
+  | Ok updated => (updated, Done)
   end.
 
 Fixpoint peek_loop (rqp : ppath -> rval -> ctx -> gen rval) (rest : list pseg) (v : rval) (c : ctx)
